@@ -20,7 +20,8 @@ RULE = ("(1) save/load: states are drawings over the persistable symbol set; ini
         "x length {1,2} on the first element, closed by a ground, plus every kind of the handler table x direction x reversal; "
         "create_schematic must give the circuit of the placement program with the same geometry (C13 reference), and must not "
         "modify its input dictionary; states = distinct drawings/lists, transitions = save-load cycles and create_schematic calls; "
-        "non-trivial = drawing with a symbol")
+        "non-trivial = drawing with a symbol"
+        ' Additions: comparison canonical in the listing order; drawings without ground symbol in both drawing orders; terminal potentials; four-element declarative lists with place_after on the second/third element.')
 ASSUMPTIONS = ["schemdraw geometry", "YAML round trips are outside the statement (JSON only)"]
 EXPLANATION = "explicit exploration of save/load cycles and declarative construction on the real code"
 
